@@ -68,7 +68,48 @@ MINE = {
  "C18-c": ("caught as built", ""),
  "C19-c": ("missed", "twin package: the same message/field names with different rules in a second proto package, documents generated alone and together in both orders; twins also joined the L1 corpus (C15 single-vs-multi)"),
  "C20-c": ("caught as built", ""),
+ "C01-d": ("caught as built", ""),
+ "C02-d": ("missed", "query-name spellings (camelCase, acronyms, digits, dots, dashes, brackets) on every verb for the Go and the TS server (C01/C02/C07)"),
+ "C03-d": ("missed", "routing sub-catalogue 'shared' gained routes of the same path shape with different variable names under different verbs (C03, C18, C01)"),
+ "C04-d": ("caught as built", ""),
+ "C05-d": ("caught as built", ""),
+ "C06-d": ("missed by C06 (caught by C19's one-way element rules)", "C06 sends bodies of rule-carrying messages: one RPC per C19 rule case, every probe the rules accept travels in both directions and must validate against the operation's schema"),
+ "C07-d": ("caught as built", ""),
+ "C08-d": ("missed by C08 (caught by C03/C15 versions pair)", "versions pair with different base paths and service headers: each file's TS/Go client must be the one its own invocation emits (C03 route-depends-on-invocation, C15)"),
+ "C09-d": ("missed", "13/16/24 header declarations per route in ascending, descending and scattered name order with a re-declared header first/middle/last; probes that are valid only for the replaced service-level declaration"),
+ "C10-d": ("missed", "handler errors that wrap *sebufhttp.Error / *ValidationError with %w keep their message and status (C10)"),
+ "C11-d": ("missed", "request bodies sent with Transfer-Encoding: chunked (no Content-Length) for every malformed-body class"),
+ "C12-d": ("missed", "misuse whose helper declarations (enum with custom values, flattened child, variants) live in another file of the package, generated together or only imported"),
+ "C13-d": ("missed", "RPC-shape mixes per file (bodiless + body verbs with only query-bound fields, no path variables): what one method needs from an import must not depend on its neighbours"),
+ "C14-d": ("caught as built", ""),
+ "C15-d": ("missed", "two services over the same types in one file and over a shared types file in the L1 corpus (C15 single-vs-multi, C18 dangling refs)"),
+ "C16-d": ("missed", "misuse definitions (every C12 rule) with edge-shaped request messages (no fields, only message/enum/bytes/repeated fields) under the termination monitor"),
+ "C17-d": ("missed", "one message object shared by concurrent calls: every codec feature of both plugins is marshalled from 8-16 goroutines on ONE object (and decoded from shared bytes) under the race detector; output and receiver must not change"),
+ "C18-d": ("missed", "path-variable spellings: json_name / camelCase spellings of a field name, explicit json_name, variables that match no field"),
+ "C19-d": ("missed", "ignore = IGNORE_IF_ZERO_VALUE / IGNORE_ALWAYS on every rule kind (found and repaired a genuine defect on the way: 4dfe284)"),
+ "C20-d": ("missed", "request sequences on ONE mock: requests the rules reject followed by valid ones, over HTTP and by calling the mock object directly (glue RegisterMock / labrt mockdirect)"),
+ "C01-e": ("missed", "the server behind a front door that answers 307/308: the client must repeat verb and body (every route of the abs base, json and x-protobuf)"),
+ "C02-e": ("caught as built", ""),
+ "C03-e": ("missed", "hostile-sentinel pass in C03 and replace-pattern / template-brace / percent-looking strings in C08 and the shared string classes ($&, $', $$, ${x}, {id})"),
+ "C04-e": ("caught in thorough only (UTC in quick)", "quick tier runs every Timestamp feature under Asia/Kolkata and America/St_Johns as well"),
+ "C05-e": ("caught as built", ""),
+ "C06-e": ("caught as built", ""),
+ "C07-e": ("caught as built", ""),
+ "C08-e": ("missed by C08 (caught by C17 and C02)", "C08 ends every route with default-valued requests after the value-carrying ones (harness correction on the way: defaultLike did not know float64)"),
+ "C09-e": ("caught as built", ""),
+ "C10-e": ("caught as built", ""),
+ "C11-e": ("caught as built", ""),
+ "C12-e": ("missed", "annotations reached through an umbrella file's `import public` for every misuse rule and as an acceptance probe for every feature"),
+ "C13-e": ("missed", "mock x declaration scopes x examples: the same short message and field names in several scopes, all with field examples (C13 build, C20 example membership); found and repaired a genuine defect on the way (92ff240)"),
+ "C14-e": ("missed", "feature twins in the L1 corpus: two packages declaring the same message names with another member of the same annotation group, generated in one invocation (C14 interchange, C15 single-vs-multi, C18)"),
+ "C15-e": ("missed", "C15 applies every variation under generate_mock=true and format=json too; sibling files of one Go package (service + imported models + an audit file nothing imports), all with examples"),
+ "C16-e": ("missed", "comment shapes as protoc hands them over (paragraphs separated by empty lines, leading/trailing blank lines, block-comment stars, tabs, CRLF) on files, messages, fields, enums, enum values, services and methods"),
+ "C17-e": ("caught as built", ""),
+ "C18-e": ("caught as built", ""),
+ "C19-e": ("caught as built", ""),
+ "C20-e": ("missed", "examples on fields that also carry rules (max_len/min_len/len in characters, max_bytes, pattern, in) with non-ASCII and astral text"),
 }
+
 
 rows = []
 for d in sorted(glob.glob(os.path.join(ROOT, "C*-*"))):
